@@ -19,7 +19,7 @@ os.environ.setdefault("PYTHONHASHSEED", "0")
 MODULES = {
     "C01": "chk_tok", "C02": "chk_tok", "C03": "chk_tok", "C04": "chk_tok", "C08": "chk_tok",
     "C20": "chk_reuse",
-    "C05": "chk_split", "C06": "chk_dur", "C07": "chk_energy", "C09": "chk_same",
+    "C05": "chk_split", "C06": "chk_split", "C07": "chk_energy", "C09": "chk_split",
     "C10": "chk_reader", "C19": "chk_reader", "C11": "chk_sources",
     "C12": "chk_workers", "C13": "chk_workers", "C14": "chk_workers",
     "C15": "chk_cli",
